@@ -12,6 +12,7 @@ import KcpVerif.Lemmas.SysDrainCex
 import KcpVerif.Lemmas.SysDrainCons2
 import KcpVerif.Lemmas.SysWedgeRepaired
 import KcpVerif.Lemmas.SysDrainReturn
+import KcpVerif.Lemmas.SysDrainReturn2
 /-! C02 — eventual delivery: a healed network always drains the backlog. -/
 namespace KcpVerif.Props
 open KcpVerif KcpVerif.Gen KcpVerif.Kcp KcpVerif.Live
@@ -838,5 +839,47 @@ theorem C02_phase_return {p : Par} {s : State} {gab gba : GLink} (h : Cons p s g
     (evs : List Ev) (hnw : RunNoWrap p.base s evs) (ht : T + s.D < (Sys.run s evs).now) :
     U < o p.base (Sys.run s evs).A.snd_una :=
   ret_done h U T (Or.inr (Or.inl ⟨hB, hack, hnf, hnow⟩)) evs hnw ht
+
+open KcpVerif.Sys KcpVerif.SysC in
+/-- **Phase A — the retransmission is emitted.**  In any consistent state, a FULL flush of A at a time
+when the timer of an un-acknowledged segment of its send buffer is due (or the segment has never been
+sent) puts a datagram on the link that arrives `D` later and contains the PUSH of that segment: no
+window, no counter and no other segment can prevent it. -/
+theorem C02_phase_retx_emitted {p : Par} {s : State} {gab gba : GLink} (h : Cons p s gab gba) (x : Seg)
+    (hx : x ∈ s.A.snd_buf) (hna : x.acked = false) (hdue : x.xmit = 0 ∨ itimediff (clk s.now) x.resendts ≥ 0) :
+    ∃ fr0 frs0 pre post, (Sys.step s .flushA).ab = s.ab ++ pre ++ [⟨s.now + s.D, Wire.encFrames frs0⟩] ++ post ∧
+      fr0 ∈ frs0 ∧ fr0.cmd.toNat = IKCP_CMD_PUSH ∧ fr0.sn = x.sn := phase_A h x hx hna hdue
+
+open KcpVerif.Sys KcpVerif.SysC in
+/-- **Phases B + C + D composed: a retransmission whose ACK was lost.**  In any consistent state in
+which a PUSH of a segment B has already delivered is on its way to B, arriving by `T2`, and B flushes at
+least every `I` ms (`Tm`): B re-acknowledges it (it is inside the window whatever the window is), the
+ACK leaves with B's next flush or with the ACK-only flush of that `Input`, and in EVERY later state of
+the fair system whose clock is past `T2 + I + D` A's `snd_una` is beyond `U` (any offset below B's
+`rcv_nxt`): A has released everything B had delivered.  Run hypothesis `RunSmall`: fewer than 2^30
+segments, receive window below 2^30. -/
+theorem C02_phase_lost_ack {p : Par} {s : State} {gab gba : GLink} (h : Cons p s gab gba) (U T2 I : Nat) (ht : Tm I s)
+    (hpush : PushOld p.base U T2 s) (evs : List Ev) (hsm : RunSmall p.base s evs)
+    (hnow : T2 + I + s.D < (Sys.run s evs).now) :
+    U < o p.base (Sys.run s evs).A.snd_una :=
+  ret2_done h U T2 I ht (Or.inr hpush) evs hsm hnow
+
+/-! ### what remains of `C02_progress_step_full` / `C02_drain_full` on the repaired model
+
+Proved, for arbitrary consistent states: the invariant after any fault history
+(`C02_consistency_any_history`); phase A as a single event (`C02_phase_retx_emitted`); phases B (for a
+segment B has delivered), C and D composed with their deadlines (`C02_phase_lost_ack`,
+`C02_phase_return`).  Not proved:
+
+1. the deadline of phase A — that A's scheduled flush falls between `resendts` and
+   `resendts + interval_A` with the head still un-acknowledged and its timer un-touched (needs an
+   element-wise relation of `parse_fastack` that keeps `resendts`/`xmit`, and `nfA ≤ now + interval_A`
+   as `Tm` for A);
+2. phase B for a segment B has NOT yet delivered: in order with room in the queue it is delivered at
+   once (`SysC.inFr_push`), but with the queue full it waits in the reorder buffer, `Recv` moves it and
+   announces the re-opened window (`C03_reopen_announced`), and the carrier is then the WINS — this needs
+   the order of `rcv_buf` in `Cons` and the `TELL` flag as a further way to owe a frame in `Ret`;
+3. zero-window probing for the queue (`C03_probe_*`), and the induction on outstanding + queued
+   segments that turns the progress step into the drain. -/
 
 end KcpVerif.Props
